@@ -89,10 +89,10 @@ var osMap = map[string]string{
 	"RemoveAll": "OsRemoveAll", "Rename": "OsRename", "Truncate": "OsTruncate", "Chmod": "OsChmod",
 	"Symlink": "OsSymlink", "Link": "OsLink", "Stat": "OsStat", "Lstat": "OsLstat", "ReadDir": "OsReadDir",
 	"CreateTemp": "OsCreateTemp", "MkdirTemp": "OsMkdirTemp",
-	"Exit": "Exit", "Getpid": "Getpid", "Getppid": "Getppid", "Getenv": "Getenv", "LookupEnv": "LookupEnv",
+	"Exit": "Exit", "Getpid": "Getpid", "Getppid": "Getppid", "Getenv": "Getenv", "LookupEnv": "LookupEnv", "Hostname": "Hostname", "Getuid": "Getuid", "Geteuid": "Geteuid", "Getgid": "Getgid", "Getegid": "Getegid",
 }
 
-var osUnseamed = map[string]bool{"Environ": true, "ExpandEnv": true, "Hostname": true, "UserHomeDir": true, "UserConfigDir": true, "UserCacheDir": true, "Chown": true, "Lchown": true, "Chtimes": true, "StartProcess": true, "NewFile": true, "Pipe": true, "CopyFS": true, "DirFS": true, "OpenRoot": true, "OpenInRoot": true}
+var osUnseamed = map[string]bool{"Environ": true, "ExpandEnv": true, "UserHomeDir": true, "UserConfigDir": true, "UserCacheDir": true, "Chown": true, "Lchown": true, "Chtimes": true, "StartProcess": true, "NewFile": true, "Pipe": true, "CopyFS": true, "DirFS": true, "OpenRoot": true, "OpenInRoot": true}
 
 var ioutilMap = map[string]string{"ReadFile": "OsReadFile", "WriteFile": "OsWriteFile", "TempFile": "OsCreateTemp", "TempDir": "OsMkdirTemp"}
 
@@ -529,7 +529,7 @@ func (rw *fileRewriter) run(isMain bool) {
 					repl, kind = r, "os"
 					if name == "Exit" {
 						kind = "exit"
-					} else if name == "Getpid" || name == "Getppid" {
+					} else if name == "Getpid" || name == "Getppid" || name == "Hostname" || strings.HasPrefix(name, "Get") && strings.HasSuffix(name, "id") {
 						kind = "ident"
 					} else if name == "Getenv" || name == "LookupEnv" {
 						kind = "env"
